@@ -121,6 +121,32 @@ func ruleR13(c *Ctx) *RuleResult {
 						}
 					}
 				}
+				// the same decided by which bound moves: the bound that entered the loop as 0 is the lower one; leaving it alone
+				// and changing the other narrows towards the low side, and the other way round (covers a half-open range,
+				// where the upper bound is set to mid itself)
+				if d.fn == "search" && g.Exit.Op == "goto" && low == 0 && high == 0 && len(g.Exit.Args) == 2 && itoa(g.From) == g.Exit.Leaf {
+					lb := -1
+					for _, e0 := range gc.GCs {
+						if e0.Exit.Op == "goto" && e0.Exit.Leaf == g.Exit.Leaf && e0.From != g.From && len(e0.Exit.Args) == 2 {
+							for j, a0 := range e0.Exit.Args {
+								if a0.String() == "#:0" {
+									lb = j
+								}
+							}
+						}
+					}
+					if lb >= 0 {
+						ub := 1 - lb
+						phi := func(j int) string { return "φ:" + g.Exit.Leaf + "." + itoa(j) }
+						keepL, keepU := g.Exit.Args[lb].String() == phi(lb), g.Exit.Args[ub].String() == phi(ub)
+						if keepL && !keepU {
+							low++
+						}
+						if keepU && !keepL {
+							high++
+						}
+					}
+				}
 				switch sign {
 				case "neg":
 					nneg++
